@@ -132,6 +132,13 @@ def _r3src(n):
 SRC_OVERRIDE.update({n: _r3src(n) for n in NEEDS if n.startswith("R3")})
 SRC_OVERRIDE.update({n: "/tmp/mut2/%s/_out/%s" % (n[:3], "A" if n[3] == "C" else "B") for n in NEEDS if not n.startswith("R3") and n[3] in "CD"})
 
+NEEDS.update({
+ "R3wnafA": ("C02", "wnaf_form updates only limb 0 when removing a negative digit (carry out of the low limb lost)", "scalars with a run of about 64 consecutive one bits (2^64-1, 2^128-1, ...)"),
+ "R3wnafB": ("C02", "wnaf_exp returns table[0] for a one-digit expansion", "odd k below 2^window with a window of at least 3 (single windowed digit)"),
+ "R3wnafC": ("C02", "wnaf_table extends an existing table when the base is unchanged and duplicates the last entry", "the same context staged twice with the same base and a larger window the second time"),
+})
+SRC_OVERRIDE.update({n: _r3src(n) for n in NEEDS if n.startswith("R3")})
+
 
 def first_line(path, pat):
     try:
